@@ -1611,12 +1611,15 @@ func AutoPID(p *load.Program, r *report.Report, rule string) {
 	for _, st := range autos {
 		src := false
 		for _, l := range ssau.Leaves(st.Val) {
-			if l != nil && isLoadOf(l, m, a.fNextPID) {
+			if l != nil && (isLoadOf(l, m, a.fNextPID) || a.scanFromNext(l, m)) {
 				src = true
 			} else {
 				src = false
 				break
 			}
+		}
+		if a.scanFromNext(st.Val, m) {
+			src = true // counted up from m.nextPID in a register
 		}
 		r.Check(src, rule, fname+"/auto-pid-from-nextPID", instrPos(p, st), "es.ElementaryPID = m.nextPID in the automatic branch", "the automatic PID is "+Describe(st.Val)+", not m.nextPID")
 	}
@@ -1660,6 +1663,10 @@ func AutoPID(p *load.Program, r *report.Report, rule string) {
 				r.OK(rule, key+"/increment", pos, fmt.Sprintf("nextPID advances by %d from its previous value", c))
 				continue
 			}
+			if isC && c >= 1 && a.scanFromNext(bo.X, AddrPath(st.Addr).Root) {
+				r.OK(rule, key+"/increment", pos, fmt.Sprintf("nextPID becomes the scanned value + %d; the scan starts at nextPID and only counts up, so nextPID advances", c))
+				continue
+			}
 		}
 		r.Bad(rule, key+"/other", pos, "nextPID is assigned "+Describe(st.Val)+": neither a constant initialisation in NewMuxer nor an increment")
 	}
@@ -1676,11 +1683,14 @@ func AutoPID(p *load.Program, r *report.Report, rule string) {
 	// collision check: no path from the entry to the append avoids every duplicate check
 	var checks []ssa.Instruction
 	cand := func(v ssa.Value) bool {
+		if a.scanFromNext(v, m) {
+			return true
+		}
 		for _, l := range ssau.Leaves(stripConv(v)) {
 			if l == nil {
 				return false
 			}
-			if isLoadOf(l, es, a.fESPID) || isLoadOf(l, m, a.fNextPID) {
+			if isLoadOf(l, es, a.fESPID) || isLoadOf(l, m, a.fNextPID) || a.scanFromNext(l, m) {
 				continue
 			}
 			ok := false
@@ -1861,6 +1871,92 @@ func (a *anchors) memberTests(f *ssa.Function, m ssa.Value) []memberTest {
 	return out
 }
 
+// scanFromNext: v is a loop-header phi that enters the loop with a value loaded from m.nextPID and is only incremented by positive
+// constants on the back edges (`pid := m.nextPID; for ; ; pid++ {…}`): a candidate counted up from nextPID.
+func (a *anchors) scanFromNext(v ssa.Value, m ssa.Value) bool {
+	phi, ok := stripConv(v).(*ssa.Phi)
+	if !ok {
+		return false
+	}
+	h := phi.Block()
+	entry, back := 0, 0
+	for i, e := range phi.Edges {
+		if h.Dominates(h.Preds[i]) {
+			bo, isB := e.(*ssa.BinOp)
+			if !isB || bo.Op != token.ADD || bo.X != ssa.Value(phi) {
+				return false
+			}
+			if c, isC := ssau.ConstInt(bo.Y); !isC || c < 1 {
+				return false
+			}
+			back++
+			continue
+		}
+		if !isLoadOf(stripConv(e), m, a.fNextPID) {
+			return false
+		}
+		entry++
+	}
+	return entry > 0 && back > 0
+}
+
+// valueUnused: the assigned candidate L (a register) was looked up in m.esContexts under uint32(L) and the assignment is dominated by
+// the absent edge of that lookup, with no insertion into the map in between.
+func (a *anchors) valueUnused(f *ssa.Function, m ssa.Value, L ssa.Value, assign *ssa.Store) bool {
+	for _, b := range f.Blocks {
+		for _, in := range b.Instrs {
+			lk, ok := in.(*ssa.Lookup)
+			if !ok || !lk.CommaOk || !isLoadOf(lk.X, m, a.fESContexts) || stripConv(lk.Index) != stripConv(L) {
+				continue
+			}
+			for _, e := range ssau.DominatingEdges(assign.Block()) {
+				cond, neg := e.If.Cond, false
+				for {
+					u, isN := cond.(*ssa.UnOp)
+					if !isN || u.Op != token.NOT {
+						break
+					}
+					cond, neg = u.X, !neg
+				}
+				ex, isEx := cond.(*ssa.Extract)
+				if !isEx || ex.Tuple != ssa.Value(lk) || ex.Index != 1 {
+					continue
+				}
+				absentSucc := 1 // ok == false
+				if neg {
+					absentSucc = 0
+				}
+				if e.Succ != absentSucc {
+					continue
+				}
+				// no insertion between the lookup and the assignment
+				clean := true
+				for _, bb := range f.Blocks {
+					for _, i2 := range bb.Instrs {
+						if mu, isMU := i2.(*ssa.MapUpdate); isMU && isLoadOf(mu.Map, m, a.fESContexts) {
+							if canPrecede(mu, assign) && canPrecede(lk, mu) {
+								clean = false
+							}
+						}
+					}
+				}
+				if clean {
+					return true
+				}
+			}
+		}
+	}
+	return false
+}
+
+// canPrecede: instruction x can execute before y on some path (same block earlier, or y's block reachable from x's).
+func canPrecede(x, y ssa.Instruction) bool {
+	if x.Block() == y.Block() {
+		return ssau.IndexOf(x) < ssau.IndexOf(y)
+	}
+	return ssau.Reaches(x.Block(), y.Block())
+}
+
 // provenUnused: the value assigned to es.ElementaryPID in the automatic branch is proven unused at
 // the point of assignment — some membership test T of the current m.nextPID (entry block E)
 // dominates the load L feeding the assignment, L cannot be reached from T's in-use edge without
@@ -1870,6 +1966,12 @@ func (a *anchors) provenUnused(r *report.Report, rule string, f *ssa.Function, m
 	key := "auto-pid/unused-at-assignment"
 	pos := instrPos(p, assign)
 	leaves := ssau.Leaves(assign.Val)
+	// a candidate scanned upwards from nextPID in a register: the lookup of that very register decides
+	allScan := a.scanFromNext(assign.Val, m) && a.valueUnused(f, m, assign.Val, assign)
+	if allScan {
+		r.OK(rule, key, pos, "the assigned candidate is counted up from m.nextPID in a register, and the assignment is dominated by the absent edge of m.esContexts[uint32(candidate)] with no insertion in between")
+		return
+	}
 	var loads []*ssa.UnOp
 	for _, l := range leaves {
 		u, ok := l.(*ssa.UnOp)
